@@ -33,6 +33,56 @@ fn fname(i: usize) -> String {
 
 const XC: [char; 8] = ['?', 'A', 'B', 'C', 'D', 'E', 'F', 'G'];
 
+/// Name of the macro for a body (letters only), and its definition text.
+fn macro_name(body: &Value) -> String {
+    let mut n = String::from("m");
+    for it in body.as_array().unwrap() {
+        n.push(match it["t"].as_str().unwrap() { "x" => 'x', "in" => 'i', "ei" => 'e', _ => 'q' });
+        n.push((b'a' + (it["c"].as_u64().unwrap() % 26) as u8) as char);
+    }
+    n
+}
+
+fn render_items(items: &[Value], s: &mut String, defs: &mut Vec<(String, String)>) {
+    for it in items {
+        let c = it["c"].as_u64().unwrap() as usize;
+        match it["t"].as_str().unwrap() {
+            "x" => s.push(XC[c]),
+            "in" => {
+                s.push_str("\\input ");
+                s.push_str(&fname(c));
+                s.push(' ');
+            }
+            "ei" => s.push_str("\\endinput "),
+            "lb" => s.push('{'),
+            "rb" => s.push('}'),
+            "m" => {
+                let name = macro_name(&it["body"]);
+                if !defs.iter().any(|d| d.0 == name) {
+                    let mut b = String::new();
+                    render_items(it["body"].as_array().unwrap(), &mut b, defs);
+                    defs.push((name.clone(), b));
+                }
+                s.push('\\');
+                s.push_str(&name);
+                s.push(' ');
+            }
+            k => panic!("unknown item {k}"),
+        }
+    }
+}
+
+fn render_file_defs(lines: &[Value], final_newline: bool, defs: &mut Vec<(String, String)>) -> String {
+    let mut s = String::new();
+    for (li, line) in lines.iter().enumerate() {
+        render_items(line.as_array().unwrap(), &mut s, defs);
+        if li + 1 < lines.len() || final_newline {
+            s.push('\n');
+        }
+    }
+    s
+}
+
 fn render_file(lines: &[Value], final_newline: bool) -> String {
     let mut s = String::new();
     for (li, line) in lines.iter().enumerate() {
@@ -85,11 +135,12 @@ fn err_of(o: &vmh::Outcome) -> String {
 fn run_tree(files: &[Value], final_newline_bits: u64) -> Value {
     let mut fs: Vec<(String, String)> = vec![];
     let mut main = String::new();
+    let mut defs: Vec<(String, String)> = vec![];
     for (i, f) in files.iter().enumerate() {
         let lines = f.as_array().unwrap();
         // a file whose last line is empty cannot be written without the final newline
         let last_empty = lines.last().map(|l| l.as_array().unwrap().is_empty()).unwrap_or(false);
-        let text = render_file(lines, last_empty || (final_newline_bits >> (i % 60)) & 1 == 1);
+        let text = render_file_defs(lines, last_empty || (final_newline_bits >> (i % 60)) & 1 == 1, &mut defs);
         if i == 0 {
             main = text;
         } else {
@@ -97,8 +148,15 @@ fn run_tree(files: &[Value], final_newline_bits: u64) -> Value {
         }
     }
     let mut vm = vmh::new_vm(&fs, &[]);
+    // macro definitions are made by a prelude source that is read completely before the main file
+    let mut prelude = String::from("\\endlinechar=-1 ");
+    for (n, b) in &defs {
+        prelude.push_str(&format!("\\def\\{n}{{{b}}}"));
+    }
+    prelude.push_str("\\endlinechar=13 ");
+    let _ = vmh::run_src::<vmh::H>(&mut vm, "prelude.tex", &prelude, 100_000);
     let r = vmh::run_src::<vmh::H>(&mut vm, "main.tex", &main, 500_000);
-    json!({"files":files,"out":delivered(&r.toks),"err":err_of(&r.outcome),"main":main})
+    json!({"files":files,"out":delivered(&r.toks),"err":err_of(&r.outcome),"main":main,"prelude":prelude})
 }
 
 fn it(t: &str, c: u64) -> Value {
@@ -124,7 +182,19 @@ pub fn files_events(args: &Args) -> i32 {
                 let ni = rng.below(5) as usize;
                 let mut line = vec![];
                 for _ in 0..ni {
-                    match rng.below(10) {
+                    match rng.below(11) {
+                        10 => {
+                            // a macro whose body reads a file and/or ends the input with text pending behind
+                            let mut body = vec![];
+                            for _ in 0..(1 + rng.below(3)) {
+                                match rng.below(5) {
+                                    0 => body.push(it("ei", 0)),
+                                    1 | 2 if k < nf => body.push(it("in", (k as u64 + 1) + rng.below((nf - k) as u64))),
+                                    _ => body.push(it("x", 1 + rng.below(7))),
+                                }
+                            }
+                            line.push(json!({"t":"m","c":0,"body":body}));
+                        }
                         0..=4 => line.push(it("x", 1 + rng.below(7))),
                         5 => line.push(it("ei", 0)),
                         _ => {
@@ -157,6 +227,11 @@ pub fn files_events(args: &Args) -> i32 {
             for f in files.iter_mut() {
                 for line in f.as_array_mut().unwrap() {
                     line.as_array_mut().unwrap().retain(|x| x["t"] != "in");
+                    for x in line.as_array_mut().unwrap() {
+                        if x["t"] == "m" {
+                            x["body"].as_array_mut().unwrap().retain(|y| y["t"] != "in");
+                        }
+                    }
                 }
             }
         }
